@@ -807,6 +807,14 @@ fn c08() -> Property {
                 cases_per_seed: 1,
             note: "a transaction controller's control link (a sending link like any other; the rollback of a dropped transaction takes its credit without waiting) against a scripted coordinator that hands out credit in batches of 1-3",
             },
+            Variant {
+                name: "resumed-sender-credit-granted-behind-the-attach",
+                weight: 1,
+                make: || Box::pin(scen::c02r::run_sender()),
+                max_steps: 3_000_000,
+                cases_per_seed: 1,
+                note: "C02's retention scenario for the sender: the link is detached and resumed, the scripted receiver grants credit in a flow written right behind its attach and nothing more: the send that follows has the credit it needs and must complete",
+            },
         ],
         quick_runs: 10_000,
         thorough_runs: 500_000,
